@@ -609,7 +609,7 @@ func init() {
 		Prepare: c14Prepare,
 		Budget: func(tier string) time.Duration {
 			if tier == "quick" {
-				return 100 * time.Second
+				return 150 * time.Second
 			}
 			return 40 * time.Minute
 		},
